@@ -356,6 +356,12 @@ class C17Engine(C10.C10Engine):
             try:
                 self.expect_raises(cell, "ref.sql", lambda: real[r].sql, TNF, ctx)
                 self.expect_raises(cell, "ref.dbml", lambda: real[r].dbml, TNF, ctx)
+                if not real[r].inline and not extra:
+                    # a non-inline reference contained in the database is rendered as an element of the database
+                    # text: rendering the database renders the reference (another inconsistent reference of the
+                    # database may be refused first, hence either refusal error)
+                    self.expect_raises(cell, "db.sql", lambda: rdb.sql, (TNF, DBE), ctx)
+                    self.expect_raises(cell, "db.dbml", lambda: rdb.dbml, (TNF, DBE), ctx)
                 if side == "col2" and real[r].inline and not extra and len(m[r]["col1"]) == 1:
                     # an inline reference is rendered as a setting of its col1 column: rendering the column (and
                     # the table around it) renders the reference, so it has to be refused there as well
@@ -365,7 +371,7 @@ class C17Engine(C10.C10Engine):
                         # (another reference of the database may be hit first and be refused as mixed)
                         self.expect_raises(cell, "owner-column.dbml", lambda: real[oc].dbml, (TNF, DBE), ctx)
                         self.expect_raises(cell, "owner-table.dbml", lambda: real[ot].dbml, (TNF, DBE), ctx)
-                        if m[r]["type"] in (">", "-"):
+                        if m[r]["type"] in (">", "-") and not m[ot]["abstract"]:   # (abstract tables carry no FOREIGN KEY lines)
                             # ... and in SQL the inline reference is a FOREIGN KEY line of the CREATE TABLE of
                             # its source table (col1's table for '>' and '-')
                             self.expect_raises(cell, "owner-table.sql", lambda: real[ot].sql, (TNF, DBE), ctx)
